@@ -50,7 +50,9 @@ impl Acc {
             evaluations: 0, distinct: HashSet::new(), counters: J::obj(), violations: Vec::new(), inconclusive: 0, samples: Vec::new(), notes: Vec::new(), sig_counts: Default::default(),
         }
     }
-    pub fn more(&self) -> bool { self.evaluations < self.max_runs && self.started.elapsed() < self.budget && self.violations.len() < 300 }
+    pub fn more(&self) -> bool { self.evaluations < self.max_runs && self.started.elapsed() < self.budget && self.violations.len() < 300 && !self.stopped_early() }
+    /// too many threads of aborted runs were leaked in this process: stop, the driver continues in a fresh process
+    pub fn stopped_early(&self) -> bool { crate::sched::LEAKED_THREADS.load(std::sync::atomic::Ordering::SeqCst) > 3000 }
     pub fn count(&mut self, k: &str, n: u64) { self.counters.add(k, n as i64) }
     pub fn nontrivial(&mut self, h: u64) { if self.distinct.len() < 400_000 { self.distinct.insert(h); } }
     pub fn sample(&mut self, max: usize, f: impl FnOnce() -> J) { if self.samples.len() < max { let j = f(); self.samples.push(j) } }
@@ -89,6 +91,7 @@ impl Acc {
             .with("samples", J::Arr(self.samples.clone()))
             .with("notes", J::Arr(self.notes.iter().map(J::s).collect()))
             .with("site_hits", crate::sched::site_hits_json())
+            .with("stopped_early", J::Bool(self.stopped_early()))
             .with("wall_s", J::Num(self.started.elapsed().as_secs_f64()))
     }
 }
